@@ -2,6 +2,7 @@ package world
 
 import (
 	"context"
+	"crypto/sha256"
 	"encoding/binary"
 	"errors"
 	"fmt"
@@ -111,6 +112,8 @@ type DADbl struct {
 	// whatever the number of attempts made during it). DownKind selects the failure (default "error").
 	Down     func() bool
 	DownKind string
+	// ContentIDs: ids are derived from (height, content) instead of being unique per stored blob.
+	ContentIDs bool
 	// SubmitDelay: an accepted submission is answered only after this long, whatever happens to the caller's
 	// context meanwhile (the DA layer has taken the blobs; the answer is on its way).
 	SubmitDelay time.Duration
@@ -211,6 +214,12 @@ func (d *DADbl) storeLocked(h uint64, blob []byte, third bool) *StoredBlob {
 	id := make([]byte, 16)
 	binary.LittleEndian.PutUint64(id, h)
 	binary.LittleEndian.PutUint64(id[8:], d.seq)
+	if d.ContentIDs {
+		// an id names (height, content), as the ids of DummyDA and of a commitment-addressed DA layer do: two
+		// byte-identical blobs at one height are listed under the same id, twice
+		sum := sha256.Sum256(blob)
+		id = append(id[:8], sum[:]...)
+	}
 	sb := &StoredBlob{Height: h, ID: id, Blob: append([]byte(nil), blob...), Third: third}
 	d.byHeight[h] = append(d.byHeight[h], sb)
 	d.byID[string(id)] = sb
